@@ -6,7 +6,11 @@ package main
 // length, scope and current function as it found them.
 
 import (
+	"bytes"
 	"fmt"
+	"go/ast"
+	"go/parser"
+	"strings"
 	"go/importer"
 	"go/token"
 	"go/types"
@@ -93,6 +97,29 @@ func runC16One(f *irFunc) (c c16Case, unbalanced []string) {
 		}
 	}()
 	b.buildFunc(f)
+	// the pending label of a block is part of the saved block context: every label placed by Label must be a
+	// labelled statement of the emitted code, also when it is the last operation before its block is closed
+	nLabel := 0
+	for _, o := range c.Obs {
+		if o.Op == "Label" {
+			nLabel++
+		}
+	}
+	var buf bytes.Buffer
+	if err := b.pkg.WriteTo(&buf); err == nil {
+		if af, err := parser.ParseFile(token.NewFileSet(), "out.go", buf.Bytes(), parser.SkipObjectResolution); err == nil {
+			got := 0
+			ast.Inspect(af, func(n ast.Node) bool {
+				if l, ok := n.(*ast.LabeledStmt); ok && !strings.HasPrefix(l.Label.Name, "_autoGo") {
+					got++
+				}
+				return true
+			})
+			if got != nLabel {
+				unbalanced = append(unbalanced, fmt.Sprintf("labels: %d placed by Label, %d labelled statements in the emitted code", nLabel, got))
+			}
+		}
+	}
 	return
 }
 
@@ -147,7 +174,7 @@ func runC16(a *runArgs) error {
 			if i%10 == 0 {
 				d = depth
 			}
-			f = genIRFuncWith(&irGen{r: r, maxDepth: d, closureLabels: true, allowInline: true, noDupLabels: true}, "F", d)
+			f = genIRFuncWith(&irGen{r: r, maxDepth: d, closureLabels: true, allowInline: true, noDupLabels: true, allowVBlock: true}, "F", d)
 		}
 		c, unb := runC16One(f)
 		m.DirectRuns += len(c.Obs)
